@@ -13,7 +13,7 @@ macro_rules! __unparenthesize_ty {
 #[macro_export]
 macro_rules! __unparen_pat {
     (($(|)? $($pat:pat_param)|+)) => { ($($pat)|+) };
-    (($($stuff:tt)*)) => { $($stuff)* };
+    (($($stuff:tt)*)) => { ($($stuff)*) };
     ($($stuff:tt)*) => { $($stuff)* };
 }
 
